@@ -31,6 +31,7 @@ type inc struct {
 	val   string
 	flags uint32
 	dbi   *snapshot.DBI
+	dbi3  *snapshot.DBI // the same entry between two neighbour entries that are no-ops for the stored neighbours (part C)
 }
 
 func (a inc) String() string { return fmt.Sprintf("in(ts=%d,val=%q,flags=%d)", a.ts, a.val, a.flags) }
@@ -173,7 +174,7 @@ func main() {
 				d := snapshot.NewDBI()
 				d.Append(snapshot.KV{Key: []byte("k"), Value: []byte(val), TimestampNano: ts, Flags: fl})
 				// incoming all-default entry is not written by Append (empty message); keep key non-empty
-				incs = append(incs, inc{ts, val, fl, d})
+				incs = append(incs, inc{ts, val, fl, d, nil})
 			}
 		}
 	}
@@ -201,7 +202,11 @@ func main() {
 		for i, a := range incs {
 			d := snapshot.NewDBI()
 			d.Append(snapshot.KV{Key: []byte("k"), Value: []byte(a.val), TimestampNano: a.ts, Flags: a.flags})
-			out[i] = inc{a.ts, a.val, a.flags, d}
+			d3 := snapshot.NewDBISize(256)
+			d3.Append(snapshot.KV{Key: []byte("j"), Value: []byte("nb"), TimestampNano: 9})
+			d3.Append(snapshot.KV{Key: []byte("k"), Value: []byte(a.val), TimestampNano: a.ts, Flags: a.flags})
+			d3.Append(snapshot.KV{Key: []byte("l"), Value: []byte("nb"), TimestampNano: 9})
+			out[i] = inc{a.ts, a.val, a.flags, d, d3}
 		}
 		return out
 	}
@@ -417,6 +422,7 @@ func main() {
 	var nTxn, nDB atomic.Int64
 	dbOut := sync.Map{}
 	key := []byte("k")
+	nbRaw := world.MakeHdr(9, 3, 0, 0, []byte("nb"))
 	par.ForEach(len(tasks), workers, func(w, ti int) {
 		if envs[w] == nil {
 			envs[w] = world.NewEnv(0)
@@ -438,6 +444,12 @@ func main() {
 				// marker so that the reset transaction is never empty
 				if err := txn.Put(dbi, []byte("zz-marker"), []byte{1}, 0); err != nil {
 					return err
+				}
+				// neighbours of the key, equal to the neighbour entries of every incoming snapshot (merging them is a no-op)
+				for _, nk := range []string{"j", "l"} {
+					if err := txn.Put(dbi, []byte(nk), nbRaw, 0); err != nil {
+						return err
+					}
 				}
 				if s.raw != nil {
 					return txn.Put(dbi, key, s.raw, 0)
@@ -471,12 +483,20 @@ func main() {
 				if err != nil {
 					return err
 				}
-				a.dbi.ResetCursor()
-				it, err := syncer.NewNativeIterator(c.fv, 1, a.dbi, header.Timestamp(c.defTS), header.TxnID(txn.ID()), header.Timestamp(c.cutoff))
+				a.dbi3.ResetCursor()
+				it, err := syncer.NewNativeIterator(c.fv, 1, a.dbi3, header.Timestamp(c.defTS), header.TxnID(txn.ID()), header.Timestamp(c.cutoff))
 				if err != nil {
 					return err
 				}
-				return strategy.Update(txn, dbi, it)
+				if err := strategy.Update(txn, dbi, it); err != nil {
+					return err
+				}
+				for _, nk := range []string{"j", "l"} {
+					if v, err := txn.Get(dbi, []byte(nk)); err != nil || string(v) != string(nbRaw) {
+						r.Violate("update-on-lmdb", "neighbour-entry-changed", fmt.Sprintf("%s stored=%s %s: neighbour key %s (stored and incoming identical) is now %x (err %v)", c, s.name, a, nk, v, err), nil)
+					}
+				}
+				return nil
 			})
 			nTxn.Add(1)
 			return id, err
@@ -548,7 +568,7 @@ func main() {
 	dbOut.Range(func(k, v any) bool { nOut++; return true })
 	r.AddPart(&ev.Part{Name: "update-on-lmdb", Engine: "E1", Exhaustive: r.Thorough(),
 		States: int64(len(tasks)), Transitions: nTxn.Load(), Executions: nDB.Load(), Distinct: int64(nOut),
-		Bound:   fmt.Sprintf("%d stored x ordered incoming pairs (thorough: all %d^2; quick: every third) x %d configs through strategy.Update in real write transactions", len(sts), len(incs), len(cfgsDB)),
+		Bound:   fmt.Sprintf("%d stored x ordered incoming pairs (thorough: all %d^2; quick: every third) x %d configs through strategy.Update in real write transactions; the incoming entry sits between two neighbour entries in the snapshot DBI and in the LMDB", len(sts), len(incs), len(cfgsDB)),
 		Note:    "quick tier visits every third ordered pair of the pair space (deterministic stride), thorough visits all",
 		Samples: []any{"fv=3,cutoff=0,defTS=0 stored=live'a'@1 a=in(ts=1,val=\"a\",flags=0) -> no transaction committed"}})
 
